@@ -114,13 +114,30 @@ type synthDict struct {
 
 func synthDicts() []synthDict {
 	type kf struct{ typ, flags string }
-	top := []kf{
-		{"string", ""}, {"octets", ""}, {"octets[6]", ""}, {"string", "has_tag"}, {"octets", "has_tag"},
-		{"string", "encrypt=1"}, {"octets", "encrypt=2"}, {"string", "has_tag,encrypt=2"}, {"octets[8]", "encrypt=2"},
-		{"octets", "concat"}, {"string", "concat"},
-		{"ipaddr", ""}, {"ipaddr", "encrypt=2"}, {"ipv6addr", ""}, {"ipv6prefix", ""}, {"ifid", ""}, {"date", ""},
-		{"integer", ""}, {"integer", "has_tag"}, {"integer", "encrypt=2"}, {"integer64", ""}, {"short", ""}, {"byte", ""},
+	// every kind x flag combination the generator accepts (dictionarygen/generator.go: validity rules):
+	//   string / octets / octets[n]: has_tag? x encrypt in {-,1,2}; concat alone
+	//   integer: has_tag | encrypt=2 | plain;  short, integer64: encrypt=2 | plain
+	//   ipaddr, ipv6addr: encrypt=2 | plain;  ipv6prefix, ifid, date, byte: plain
+	var top []kf
+	for _, typ := range []string{"string", "octets", "octets[6]"} {
+		for _, tag := range []string{"", "has_tag"} {
+			for _, enc := range []string{"", "encrypt=1", "encrypt=2"} {
+				fl := tag
+				if enc != "" {
+					if fl != "" {
+						fl += ","
+					}
+					fl += enc
+				}
+				top = append(top, kf{typ, fl})
+			}
+		}
 	}
+	top = append(top, kf{"octets", "concat"}, kf{"string", "concat"},
+		kf{"ipaddr", ""}, kf{"ipaddr", "encrypt=2"}, kf{"ipv6addr", ""}, kf{"ipv6addr", "encrypt=2"},
+		kf{"ipv6prefix", ""}, kf{"ifid", ""}, kf{"date", ""},
+		kf{"integer", ""}, kf{"integer", "has_tag"}, kf{"integer", "encrypt=2"},
+		kf{"integer64", ""}, kf{"integer64", "encrypt=2"}, kf{"short", ""}, kf{"short", "encrypt=2"}, kf{"byte", ""})
 	var ds []synthDict
 	for variant := 0; variant < 2; variant++ {
 		var b strings.Builder
@@ -132,8 +149,15 @@ func synthDicts() []synthDict {
 		for i, k := range top {
 			fmt.Fprintf(&b, "ATTRIBUTE\tSyn%d-T%d-%s\t%d\t%s\t%s\n", variant, i, strings.NewReplacer("[", "", "]", "").Replace(k.typ), base+i, k.typ, k.flags)
 		}
-		fmt.Fprintf(&b, "VALUE\tSyn%d-T17-integer\tAlpha\t1\nVALUE\tSyn%d-T17-integer\tBeta-Two\t2\nVALUE\tSyn%d-T17-integer\tBig\t0xffffffff\n", variant, variant, variant)
-		fmt.Fprintf(&b, "VALUE\tSyn%d-T21-short\tLow\t0\nVALUE\tSyn%d-T21-short\tHigh\t65535\n", variant, variant)
+		for i, k := range top {
+			name := fmt.Sprintf("Syn%d-T%d-%s", variant, i, k.typ)
+			if k.typ == "integer" && k.flags == "" {
+				fmt.Fprintf(&b, "VALUE\t%s\tAlpha\t1\nVALUE\t%s\tBeta-Two\t2\nVALUE\t%s\tBig\t0xffffffff\nVALUE\t%s\tBeta-Again\t2\n", name, name, name, name)
+			}
+			if k.typ == "short" && k.flags == "" {
+				fmt.Fprintf(&b, "VALUE\t%s\tLow\t0\nVALUE\t%s\tHigh\t65535\n", name, name)
+			}
+		}
 		// two vendors with the non-concat kinds
 		for v := 0; v < 2; v++ {
 			vid := 40000 + variant*10 + v
